@@ -555,7 +555,9 @@ def relayout(match_text, r, dense=False):
         if prev is not None:
             g = gap(r, need_sep(prev, t), dense)
             if not dense and (idx == 1 or idx == len(toks) - 1) and r.random() < 0.3:
-                g += "~ a comment ~" + gap(r, False, False)
+                # the text of a comment between components is inert, whatever it looks like (field-like, mode-like)
+                g += r.choice(["~ a comment ~", "~ a comment ~", "~ logic-mode: OR ~", "~ return-mode: no-matches ~", "~ id: inner note: x ~",
+                               "~ run-mode: no-run ~", "~ checks: the b column ~"]) + gap(r, False, False)
             out += g
         out += t
         prev = t
